@@ -49,7 +49,10 @@ def run(res, f, tier):
     bad_loops = [l for l in loops if not (l[2] and ("Await" in l[2] or "ForLoop" in l[2]))]
     for p, span, exp in bad_loops:
         res.violation("C01|%s|loop:%s" % (p, exp or "plain"), "loop that is neither an await loop nor a for loop over a collection in %s at %s" % (p, span))
+    import control
+    controls = control.hazard_controls()
     res.coverage = {
+        "positive_controls": controls,
         "explanation": "Every crate-local MIR body reachable from Expr::evaluate, RuleSet::evaluate_value and RuleSet::evaluate (call graph over resolved "
                        "callees, closures and coroutine bodies) was scanned for constructs that can panic or lose range: Assert terminators, integer arithmetic, "
                        "numeric casts (lossless decided from source/target types), and calls / function references classified by spec/callees.py.",
